@@ -97,6 +97,21 @@ CHECKS = {
               "(implementation and model: zero diagnostics, no annotation collected)."),
         note="Corpora are inputs to the correspondence, not to the theorem; their doc lines are read by the real reader only. IMPL is silent trivially (no annotation => early return) and joins the theorem with the @implements model.",
         technique="Coq proof (unrecognised lines => empty annotations => empty indices => no diagnostics) + corpus runs through the real binary + near-miss worlds"),
+    "C12": dict(
+        text=("Theorems (Coq): the IMM and CTOR diagnostics of a package are, up to order, a function of the MULTISET of top-level declarations of its non-excluded files (Permutation in, "
+              "Permutation out: reordering declarations and moving them between files cannot matter); for the once-per-file checkers a key (package,type) is reported iff SOME candidate with "
+              "that key is unsuppressed and an unkeyed candidate iff it is unsuppressed - functions of the candidate SET, not of its order; candidates are contributed declaration by declaration. "
+              "Blank lines/comments/gofmt/renaming are covered by the correspondence only: one IR rendered 8 ways (permute, move, swap files, blank+comments, gofmt, rename, all composed) through "
+              "the real binary, compared by site id / (package,type), each rendering also against the model."),
+        note="The theorems cover reordering and moving; position-relabelling and renaming invariance are exercised, not proved (DESIGN 5, C12).",
+        technique="Coq proof (permutation invariance, order-independence of the dedup) + metamorphic correspondence through the real binary"),
+    "C13": dict(
+        text=("Theorems (Coq): the resolution of a recorded type to a defined type sees through any stack of aliases around the single pointer strip (alias of T, pointer to alias, alias of "
+              "pointer, aliases of aliases), value or pointer alike; an alias type NAME is judged by @packageonly as its target. That renamed imports and parentheses leave TypeOf/ObjectOf "
+              "unchanged is an input fact exercised by the runs: the same IR with the types spelled 5 ways (direct, renamed import, alias in a third package, local alias - incl. aliases of "
+              "pointer types -, parenthesised) through the real binary, compared by site id / (package,type), each rendering also against the model."),
+        note="Pointers of depth >= 2 and generics are outside the fragment.",
+        technique="Coq proof (alias/pointer resolution lemmas) + metamorphic correspondence through the real binary"),
 }
 
 PENDING_REASON = "check under construction in this round (designed in DESIGN.md section 5); not yet claimed"
